@@ -34,6 +34,11 @@ def _daily_data(which):
         import bounded.C12_fits as F
         case = {"name": "seasonal", "base": 20, "heat_slope": 1.2, "cool_slope": 0.9, "heat_bp": 50, "cool_bp": 68, "summer": 1.8, "n_days": 365, "seed": 11, "family": "daily"}
         return em.DailyBaselineData(F.build(case), is_electricity_data=True)
+    if which == "OUTLIERS":
+        # a synthetic meter with a dozen gross outliers: the adaptive loss settles on a robust (alpha < 2) weighting
+        import bounded.C12_fits as F
+        case = {"name": "outliers", "base": 20, "heat_slope": 1.2, "cool_slope": 0.9, "heat_bp": 50, "cool_bp": 68, "outliers": 12, "n_days": 365, "seed": 21, "family": "daily"}
+        return em.DailyBaselineData(F.build(case), is_electricity_data=True)
     scale = 1.0
     if which.endswith("twin"):
         which, scale = which[:-4], 1.02          # the same meter with every reading 2 % higher
@@ -73,7 +78,11 @@ def _fit(step):
     settings = step.get("settings")
     if fam == "daily":
         data = _daily_data(step["meter"])
-        m = em.DailyModel(settings=settings).fit(data, ignore_disqualification=True)
+        m = em.DailyModel(settings=settings)
+        if step.get("refit_after"):
+            # ONE model object, fitted on another meter first
+            m.fit(_daily_data(step["refit_after"]), ignore_disqualification=True)
+        m = m.fit(data, ignore_disqualification=True)
         pred = m.predict(data, ignore_disqualification=True)
     elif fam == "billing":
         data = _billing_data()
@@ -88,7 +97,10 @@ def _fit(step):
         # a plain dict (or nothing) takes the default-feature path: the training features are chosen at fit time from the columns present
         if step.get("explicit"):
             settings = (em.HourlySolarSettings if step.get("ghi") else em.HourlyNonSolarSettings)(**(settings or {}))
-        m = em.HourlyModel(settings=settings).fit(data, ignore_disqualification=True)
+        m = em.HourlyModel(settings=settings)
+        if step.get("refit_after"):
+            m.fit(em.HourlyBaselineData(_hourly_frame(step["refit_after"]), is_electricity_data=True), ignore_disqualification=True)
+        m = m.fit(data, ignore_disqualification=True)
         pred = m.predict(data, ignore_disqualification=True)
     elif fam == "caltrack":
         import pandas as pd
@@ -161,7 +173,18 @@ def run_plan(plan, env_extra=None, timeout=900):
     for k in ("OMP_NUM_THREADS", "MKL_NUM_THREADS", "OPENBLAS_NUM_THREADS", "NUMBA_NUM_THREADS"):
         env.setdefault(k, "1")        # plans run side by side: one thread each unless the plan says otherwise
     env.update(env_extra or {})
-    p = subprocess.run([sys.executable, "-m", "bounded.C03_repeat", "--worker", json.dumps(plan)], cwd=VERIF, env=env, capture_output=True, text=True, timeout=timeout)
+    tmp_cache = None
+    if env.get("NUMBA_CACHE_DIR") == "@fresh":
+        import tempfile
+        os.makedirs(os.path.join(VERIF, ".scratch"), exist_ok=True)
+        tmp_cache = tempfile.mkdtemp(prefix="numba-fresh-", dir=os.path.join(VERIF, ".scratch"))
+        env["NUMBA_CACHE_DIR"] = tmp_cache
+    try:
+        p = subprocess.run([sys.executable, "-m", "bounded.C03_repeat", "--worker", json.dumps(plan)], cwd=VERIF, env=env, capture_output=True, text=True, timeout=timeout)
+    finally:
+        if tmp_cache:
+            import shutil
+            shutil.rmtree(tmp_cache, ignore_errors=True)
     for line in p.stdout.splitlines():
         if line.startswith("RESULT"):
             return json.loads(line[6:])
@@ -204,6 +227,8 @@ FIT = {
     "hourly.H2.pv": {"do": "fit", "family": "hourly", "meter": "H2", "settings": {"seed": 3, "supplemental_time_series_columns": ["has_pv"]}},
     "hourly.H3.default.seed7": {"do": "fit", "family": "hourly", "meter": "H3", "settings": {"seed": 7}},
     "caltrack": {"do": "fit", "family": "caltrack"},
+    "daily.OUT.devalpha": {"do": "fit", "family": "daily", "meter": "OUTLIERS", "settings": {"developer_mode": True, "alpha_minimum": -20}},
+    "daily.OUT": {"do": "fit", "family": "daily", "meter": "OUTLIERS", "settings": None},
     "hourly.H1.solar.seed5": {"do": "fit", "family": "hourly", "meter": "H1", "ghi": True, "settings": {"seed": 5}},
     "hourly.H3.explicit.seed7": {"do": "fit", "family": "hourly", "meter": "H3", "explicit": True, "settings": {"seed": 7}},
 }
@@ -239,6 +264,12 @@ def plans(tier):
     P["hashseed.d"] = ([rec("daily.seasonal")], {"PYTHONHASHSEED": "3"})
     # the same meter with slightly different readings fitted first (anything keyed on rounded quantities is then already there)
     P["warm.twin"] = ([noise("daily.D1twin.alpha05"), rec("daily.D1.alpha05")], None)
+    # ONE model object fitted on another meter first, then on the recorded one (estimators that keep state between fits show here)
+    P["warm.refit"] = ([dict(rec("hourly.H1.seed7"), refit_after="H2"), dict(rec("daily.D1.alpha05"), refit_after="D3")], None)
+    # developer overrides of the robust loss, on a meter with outliers: alone in a process with an EMPTY JIT cache, and after a default fit in a
+    # process that has the kernels compiled already (anything frozen into compiled code at first use shows here)
+    P["fresh.devalpha"] = ([rec("daily.OUT.devalpha"), rec("daily.OUT")], {"NUMBA_CACHE_DIR": "@fresh"})
+    P["warm.devalpha"] = ([rec("daily.OUT"), rec("daily.OUT.devalpha")], None)
     P["threads.hourly"] = ([rec("hourly.H1.seed7"), rec("hourly.H1.seed0")], {"OMP_NUM_THREADS": "4", "MKL_NUM_THREADS": "4", "OPENBLAS_NUM_THREADS": "4"})
     if tier == "thorough":
         P["fresh.daily.default"] = ([rec("daily.D1")], None)
